@@ -92,6 +92,7 @@ func runC15(c *Check, rng *rand.Rand) {
 		c15removed(c, rng, env, script)
 	}
 	c15compound(c, rng, 0)
+	c15multiConn(c, rng)
 	c.MinEvals = 30
 }
 
@@ -571,4 +572,137 @@ func c15compound(c *Check, rng *rand.Rand, timeoutMs int) {
 		script.Forget(keys...)
 		script.Forget(k2...)
 	}
+}
+
+// c15multiConn: two backend connections per node (server_connections: 2).
+// (A) requests wait on both connections of a node when it leaves the topology: every
+// one of their clients must be answered or closed. (B) a node is unreachable and the
+// proxy has just learnt so from a failed dial; another node then redirects a request
+// to it: that request (and what is pipelined behind it) must be answered.
+func c15multiConn(c *Check, rng *rand.Rand) {
+	env, err := NewEnv(EnvOpt{Masters: 4, Cfg: ProxyCfg{ServerConnections: 2}})
+	must(err, "start env")
+	defer env.Close()
+	script := NewScript()
+	env.Cl.SetHandler(script.Handler)
+	t := env.T
+	// (B) first, on the intact topology
+	for rep := 0; rep < c.Pick(3, 12) && env.P.Alive(); rep++ {
+		a, b := t.Nodes[rep%2], t.Nodes[2+rep%2]
+		must(b.Node.SetDown(true), "node down")
+		c1, err := env.Dial()
+		must(err, "dial")
+		// direct requests until one fails: the proxy's last experience with b is a failed dial
+		failed := false
+		for i := 0; i < 10 && !failed; i++ {
+			c1.Send(Req("GET", Key(slotOf(b, rng), newToken("dn"))))
+			if !c1.WaitReplies(i+1, 3*time.Second) {
+				break
+			}
+			failed = c1.Snapshot().Replies[i].Val.Kind == '-'
+		}
+		c1.Close()
+		sl := slotOf(a, rng)
+		k := Key(sl, newToken("mvdn"))
+		kw := []string{"MOVED", "ASK"}[rep%2]
+		script.Plan(k).Act = func(*BReq) Action { return Action{Reply: ErrReply(fmt.Sprintf("%s %d %s", kw, sl, b.Addr))} }
+		c2, err := env.Dial()
+		must(err, "dial")
+		c2.Send(append(Req("GET", k), Req("PING")...))
+		ok := c2.WaitReplies(2, 6*time.Second)
+		s2 := c2.Snapshot()
+		c.Eval(1)
+		c.Distinct(fmt.Sprintf("redirect-to-unreachable-known-node/%s/%v", kw, failed))
+		if !ok && !s2.Closed {
+			c.Violate(Violation{Class: "client-left-waiting", Shape: "redirect-to-unreachable-known-node/" + kw,
+				Detail:  fmt.Sprintf("node %s is down (a direct request for it had just failed: %v); another node answered -%s naming it: the client holds %d of 2 replies after 6 s and is not closed", b.Addr, failed, kw, len(s2.Replies)),
+				Witness: map[string]interface{}{"received": valStrings(s2.Replies), "proxy_alive": env.P.Alive()}})
+		} else {
+			c.Count("fault_cases_resolved", 1)
+		}
+		c2.Close()
+		script.Forget(k)
+		must(b.Node.SetDown(false), "node up")
+		time.Sleep(300 * time.Millisecond)
+	}
+	// (A)
+	victim := t.Nodes[3]
+	other := t.Nodes[0]
+	var waiting []*Client
+	var gates []*Gate
+	var keys []string
+	for i := 0; i < 6; i++ {
+		cl, err := env.Dial()
+		must(err, "dial")
+		k := Key(slotOf(victim, rng), newToken("rm2"))
+		g := NewGate()
+		script.Plan(k).Gate = g
+		gates = append(gates, g)
+		keys = append(keys, k)
+		cl.Send(Req("GET", k))
+		waiting = append(waiting, cl)
+		env.Barrier()
+	}
+	nconn := 0
+	for _, bc := range victim.Node.Conns() {
+		if len(bc.Requests()) > 0 && !bc.Closed() {
+			nconn++
+		}
+	}
+	nt := &Topo{}
+	for _, tn := range t.Nodes {
+		if tn == victim {
+			continue
+		}
+		cp := *tn
+		if tn == other {
+			cp.Slots = append(append([][2]int(nil), tn.Slots...), victim.Slots...)
+		}
+		nt.Nodes = append(nt.Nodes, &cp)
+	}
+	nt.Install(env.Cl)
+	adopted := false
+	for dl := time.Now().Add(12 * time.Second); time.Now().Before(dl) && !adopted; {
+		pc, err := env.Dial()
+		must(err, "dial")
+		tok := newToken("ad2")
+		before := env.Cl.LogLen()
+		pc.Send(Req("SET", Key(victim.Slots[0][0], tok), "v"))
+		pc.WaitReplies(1, 400*time.Millisecond)
+		for _, r := range env.Cl.Log()[before:] {
+			if r.Node == other.Node && r.Cmd == "set" && strings.Contains(r.Arg(1), tok) {
+				adopted = true
+			}
+		}
+		pc.Close()
+	}
+	c.Eval(1)
+	c.Distinct(fmt.Sprintf("removed-from-topology/two-connections/%d", nconn))
+	if !adopted {
+		c.Count("removal_not_adopted(C14 subject)", 1)
+	} else {
+		env.Barrier()
+		time.Sleep(500 * time.Millisecond)
+		env.Barrier()
+		stuck := 0
+		for _, cl := range waiting {
+			if s := cl.Snapshot(); !s.Closed && len(s.Replies) < 1 {
+				stuck++
+			}
+		}
+		if stuck > 0 {
+			c.Violate(Violation{Class: "client-left-waiting", Shape: "removed-from-topology/two-connections",
+				Detail:  fmt.Sprintf("the node was removed from the topology while 6 requests waited on its %d backend connections: %d of their clients are neither answered nor closed", nconn, stuck),
+				Witness: map[string]interface{}{"removed_node": victim.Addr, "connections_with_waiting_requests": nconn}})
+		} else {
+			c.Count("fault_cases_resolved", 1)
+		}
+	}
+	for _, g := range gates {
+		g.Open()
+	}
+	for _, cl := range waiting {
+		cl.Close()
+	}
+	script.Forget(keys...)
 }
